@@ -103,11 +103,14 @@ HELPERS = [
     (27, 'request-ownership', 'rules.C20', 'r22', 'C20.R22',
      ['ebusd::ProtocolHandler::addRequest'],
      'a request that addRequest refuses must not be lost: it is freed by the creator or not created at all'),
+    (28, 'enhanced-send', 'rules.C14', 'r20', 'C14.R20',
+     ['ebusd::EnhancedDevice::send'],
+     'with an enhanced adapter every symbol this property sends passes EnhancedDevice::send'),
 ]
 
 
 # for which further properties a helper matters (besides those whose own module runs it)
-RELEVANT = {'layout': ['C06', 'C07', 'C13', 'C15'], 'crc-table': ['C15'], 'address-classes': ['C02', 'C09'], 'errno': ['C19'], 'parseint-prefix': [], 'overflow-threshold': [], 'transport-accounting': ['C01', 'C02'], 'clock': [], 'recv-deadline': ['C14'], 'tolower': ['C16', 'C18'], 'multiline-field': ['C20'], 'file-state': ['C19', 'C16'], 'serial-raw': ['C02', 'C14'], 'arbitration-disarm': ['C03'], 'enhanced-decoder': [], 'minus-sign': [], 'type-table': ['C06', 'C07'], 'entry-reset': ['C02', 'C15'], 'arbitration-pair': ['C03', 'C04', 'C20'], 'arbitration-counter': ['C03', 'C04', 'C20'], 'transport-close': ['C14', 'C01'], 'chain-prefix': ['C09'], 'decoder-incomplete': ['C01', 'C02', 'C03', 'C20'], 'decoder-deferral': ['C01', 'C02', 'C03', 'C20'], 'replace-same-id': ['C19'], 'answer-key': ['C01', 'C03'], 'request-ownership': ['C04']}
+RELEVANT = {'layout': ['C06', 'C07', 'C13', 'C15'], 'crc-table': ['C15'], 'address-classes': ['C02', 'C09'], 'errno': ['C19'], 'parseint-prefix': [], 'overflow-threshold': [], 'transport-accounting': ['C01', 'C02'], 'clock': [], 'recv-deadline': ['C14'], 'tolower': ['C16', 'C18'], 'multiline-field': ['C20'], 'file-state': ['C19', 'C16'], 'serial-raw': ['C02', 'C14'], 'arbitration-disarm': ['C03'], 'enhanced-decoder': [], 'minus-sign': [], 'type-table': ['C06', 'C07'], 'entry-reset': ['C02', 'C15', 'C20'], 'arbitration-pair': ['C03', 'C04', 'C20'], 'arbitration-counter': ['C03', 'C04', 'C20'], 'transport-close': ['C14', 'C01'], 'chain-prefix': ['C09'], 'decoder-incomplete': ['C01', 'C02', 'C03', 'C20'], 'decoder-deferral': ['C01', 'C02', 'C03', 'C20'], 'replace-same-id': ['C19'], 'answer-key': ['C01', 'C03'], 'request-ownership': ['C04'], 'enhanced-send': ['C02', 'C03']}
 
 
 def share(ctx):
